@@ -147,6 +147,7 @@ def _run_path(job):
     from pyphysim.simulations.results import Result, SimulationResults
     tc = type_code(typ)
     sets = [SimulationResults() for _ in range(3)]
+    cur_exp = [[], [], []]
     okc = 0
     for i, e in enumerate(edges):
         op = e["op"]
@@ -192,6 +193,9 @@ def _run_path(job):
             fid = "ChoiceUpdateRaises" if (typ == "CHOICE" and isinstance(ex, AttributeError) and "np.int" in str(ex).replace("numpy", "np") or "has no attribute 'int'" in str(ex)) else None
             return okc, {"step": i, "op": op, "what": f"{op['op']} raised {type(ex).__name__}: {ex}", "fid": fid}
         for si, exps in enumerate(e["exp"]):
+            if exps == ["same"]:
+                exps = cur_exp[si]
+            cur_exp[si] = exps
             have = sets[si][NAME] if NAME in sets[si].get_result_names() else []
             if len(have) != len(exps):
                 return okc, {"step": i, "op": op, "what": f"set {si + 1} holds {len(have)} results, expected {len(exps)}", "fid": None}
